@@ -79,6 +79,13 @@ fn base_seed() -> u64 {
     }
 }
 
+thread_local! {
+    static CONFIG: std::cell::RefCell<String> = const { std::cell::RefCell::new(String::new()) };
+}
+pub fn config_name() -> String {
+    CONFIG.with(|c| c.borrow().clone())
+}
+
 pub fn run_seed(base: u64, scenario: &str, idx: u64) -> u64 {
     mix(&[base, fnv(scenario.as_bytes()), idx])
 }
@@ -188,6 +195,12 @@ fn worker(scs: &[Scenario], args: &[String]) {
             let mut o = out.lock();
             let _ = writeln!(o, "V {idx} {}", viol_json(v).to_string_compact());
         }
+        if !r.stats.emits.is_empty() {
+            let mut o = out.lock();
+            for e in r.stats.emits.iter() {
+                let _ = writeln!(o, "D {idx} {}", e.replace('\n', " "));
+            }
+        }
         if verbose {
             if let Some(s) = &r.stats.sample {
                 let mut o = out.lock();
@@ -223,6 +236,7 @@ struct ScenarioAgg {
     sigs: BTreeSet<u64>,
     logsum: u64,
     samples: Vec<(u64, String)>,
+    emits: Vec<(u64, String)>,
     max_alloc: usize,
     draws: [u64; 3],
     found: Vec<Found>,
@@ -346,6 +360,10 @@ fn run_scenario(exe: &std::path::Path, sc: &Scenario, base: u64, total: u64, job
                             agg.samples.push((idx.parse().unwrap_or(0), s));
                         }
                     },
+                    "D" => {
+                        let (idx, text) = rest.split_once(' ').unwrap_or((rest, ""));
+                        agg.emits.push((idx.parse().unwrap_or(0), text.to_string()));
+                    },
                     "H" => {
                         crate::harness_error(&format!("worker reported a panic in harness code: {rest}"));
                     },
@@ -446,6 +464,19 @@ fn run_scenario(exe: &std::path::Path, sc: &Scenario, base: u64, total: u64, job
     agg.logsum = h;
     agg.found.sort_by_key(|f| f.idx);
     agg.samples.sort();
+    agg.emits.sort();
+    if !agg.emits.is_empty() {
+        let dir = format!("{}/target/digests", verif_dir());
+        let _ = std::fs::create_dir_all(&dir);
+        let path = format!("{dir}/{}-{}-{}.txt", sc.property, sc.name, config_name());
+        let mut text = String::new();
+        for (i, e) in agg.emits.iter() {
+            text.push_str(&format!("{i} {e}\n"));
+        }
+        if let Err(e) = std::fs::write(&path, text) {
+            crate::harness_error(&format!("cannot write {path}: {e}"));
+        }
+    }
     agg
 }
 
@@ -1069,6 +1100,7 @@ fn batch(scs: &[Scenario], exe: &std::path::Path, config: &str, args: &[String])
 
 pub fn main(scs: Vec<Scenario>, config: &str) -> ! {
     crate::install_panic_hook();
+    CONFIG.with(|c| *c.borrow_mut() = config.to_string());
     let args: Vec<String> = std::env::args().collect();
     let exe = std::env::current_exe().unwrap_or_else(|_| std::path::PathBuf::from(&args[0]));
     let cmd = args.get(1).map(|s| s.as_str()).unwrap_or("list");
